@@ -1099,11 +1099,59 @@ def rule_success_only_at_end(prog, fixture=False):
     return r
 
 
+# ---------------------------------------------------------------- R-C09-10
+def rule_alias_table(prog, fixture=False):
+    r = RuleResult("R-C09-10", "in a table of names with synonyms (dialects[]: name, synonym_for, value) a row that is "
+                   "declared a synonym carries the same value as the row it names: `8086` must decode with the token "
+                   "table of `Z80`, so what is unassigned for the one is rejected for the other", floor=0 if fixture else 3)
+    for gid, gl in prog.globals.items():
+        init = strip_all(gl.get("init")) if gl.get("init") else None
+        if init is None or init.get("k") != "InitListExpr":
+            continue
+        gt = notpl((gl.get("ct") or gl.get("t") or "").replace("const ", "").replace("struct ", ""))
+        rname = gt.split("[")[0].strip().split("::")[-1]
+        rec = [rc for q_, rc in prog.records.items() if notpl(q_).split("::")[-1] == rname]
+        if not rec:
+            continue
+        names = [f_["n"] for f_ in rec[0]["fields"]]
+        syn = [i for i, n_ in enumerate(names) if "synonym" in n_ or "alias" in n_]
+        nam = [i for i, n_ in enumerate(names) if n_ == "name"]
+        if not syn or not nam:
+            continue
+        vals = [i for i in range(len(names)) if i not in (syn[0], nam[0])]
+        rows = []
+        for row in init.get("c", []):
+            row = strip_all(row)
+            if row is None or row.get("k") != "InitListExpr" or len(row.get("c", [])) != len(names):
+                continue
+
+            def text(c):
+                for x in walk(c):
+                    if x.get("k") == "StringLiteral":
+                        return x.get("s")
+                return None
+            rows.append((text(row["c"][nam[0]]), text(row["c"][syn[0]]), tuple(folded(row["c"][i]) for i in vals), row))
+        byname = {n_: v for n_, s_, v, _r in rows if n_ is not None}
+        for n_, s_, v, row in rows:
+            if n_ is None or s_ is None:
+                continue
+            key = "%s::%s[%s]" % (gl.get("q") or gl.get("n"), "synonym", n_)
+            loc = gid.split("|")[1] if "|" in gid else "?"
+            if s_ not in byname:
+                r.add(key, loc, False, "`%s` is declared a synonym of `%s`, which the table does not contain" % (n_, s_))
+            else:
+                ok = byname[s_] == v
+                r.add(key, loc, ok, "same value as %s" % s_ if ok else
+                      "`%s` is declared a synonym of `%s` but carries a different value (%s instead of %s): it selects another "
+                      "token table than documented" % (n_, s_, v, byname[s_]))
+    return r
+
+
 def run(ctx):
     prog = ctx.prog("basic", "N")
     return [rule_eof_before_use(prog), rule_short_fread(prog), rule_static_state(prog),
             rule_failures_propagate(prog), rule_table_contradiction(prog), rule_extension_needs_byte(prog), rule_every_file_decoded(prog),
-            rule_success_only_at_end(prog), _shared_body_rule(prog)]
+            rule_success_only_at_end(prog), _shared_body_rule(prog), rule_alias_table(prog)]
 
 
 def _shared_body_rule(prog):
